@@ -117,7 +117,7 @@ func c15helperStrings(payload int) {
 // canonical text form (the empty value is a value, not a missing one).
 func HarnessC15HelperEmpty() {
 	k := "k"
-	kind := zzverif.Choose("kind", 4)
+	kind := zzverif.Choose("kind", 7)
 	if kind == 2 {
 		// (the map and set helpers sort their keys when printing: those stay concrete)
 		k = zzverif.Bytes("k", 1)
@@ -155,6 +155,30 @@ func HarnessC15HelperEmpty() {
 			out, _ := g.Get().([]string)
 			zzverif.Assert(len(out) == 3 && out[0] == "" && zzverif.StrEq(out[1], k) && out[2] == "", "C15 []string: empty-string elements were lost or changed in the round trip")
 		}
+	case 4:
+		// the empty string as a map key
+		in := map[string]string{"": "v", "k": "w"}
+		text := NewMapStringStringFlag(&in).String()
+		var out map[string]string
+		err := NewMapStringStringFlag(&out).Set(text)
+		zzverif.Assert(err == nil, "C15 map[string]string: the canonical text of a map with the empty string as a key does not parse")
+		if err == nil {
+			v, ok := out[""]
+			zzverif.Assert(ok && v == "v" && len(out) == 2 && out["k"] == "w", "C15 map[string]string: the entry whose key is the empty string was lost or changed in the round trip")
+		}
+	case 5:
+		// an empty slice of integers prints as the empty text
+		in := []int16{}
+		text := NewSignedIntegralSlice(&in).String()
+		var out []int16
+		err := NewSignedIntegralSlice(&out).Set(text)
+		zzverif.Assert(err == nil && len(out) == 0, "C15 []int16: the canonical text of the empty slice does not parse back to the empty slice")
+	case 6:
+		in := []uint8{}
+		text := NewUnsignedIntegralSlice(&in).String()
+		var out []uint8
+		err := NewUnsignedIntegralSlice(&out).Set(text)
+		zzverif.Assert(err == nil && len(out) == 0, "C15 []uint8: the canonical text of the empty slice does not parse back to the empty slice")
 	case 3:
 		in := map[string]struct{}{"": {}, k: {}}
 		text := NewStringSetFlag(&in).String()
